@@ -45,6 +45,13 @@ pub(crate) fn decompress(data: &[u8], expected_size: usize) -> Result<Vec<u8>> {
 
         match exploder.explode_block(remaining_input) {
             Ok((consumed, output_block)) => {
+                // A block that neither consumes input nor produces output would repeat forever
+                if consumed == 0 && output_block.is_empty() {
+                    return Err(decompression_error(
+                        "PKWare",
+                        "no progress (truncated or corrupt stream)",
+                    ));
+                }
                 input_pos += consumed;
 
                 // Copy output block to our buffer
